@@ -52,6 +52,7 @@ const SCENARIOS: &[&str] = &[
     "pull-interrupted-between-rows-and-their-references",
     "same-reference-added-on-two-peers",
     "row-deleted-on-two-peers-at-different-versions",
+    "referenced-row-updated-on-one-peer-and-deleted-at-its-older-version-on-another",
 ];
 
 async fn run_scenario(
@@ -91,7 +92,7 @@ async fn run_scenario(
             sc.tick(5);
             sc.apply(&Op::AddParent { peer: 1, row: 0, parent: 0 }).await;
         }
-        _ => {
+        4 => {
             sc.apply(&Op::Create { peer: 0, entity: 1 }).await;
             sc.apply(&Op::Pull { dst: 1, src: 0, cut: None }).await;
             sc.tick(5);
@@ -100,6 +101,17 @@ async fn run_scenario(
             sc.apply(&Op::DeleteNode { peer: 1, row: 0 }).await;
             sc.tick(5);
             sc.apply(&Op::DeleteNode { peer: 0, row: 0 }).await;
+        }
+        _ => {
+            // a person with a pet; the pet is renamed on peer 1 while peer 0 deletes the version it knows: the newer
+            // version wins everywhere, but the deleting peer has dropped the reference to it
+            sc.apply(&Op::CreateNested { peer: 0 }).await;
+            sc.apply(&Op::Pull { dst: 1, src: 0, cut: None }).await;
+            let pet = sc.rows.iter().position(|r| r.1 == "Pet").unwrap_or(0);
+            sc.tick(5);
+            sc.apply(&Op::Update { peer: 1, row: pet }).await;
+            sc.tick(5);
+            sc.apply(&Op::DeleteNode { peer: 0, row: pet }).await;
         }
     }
     sc.tick(1000);
@@ -176,7 +188,7 @@ fn run_case<'a>(ctx: &'a Ctx, case: u64, acc: &'a mut Acc) -> CaseFut<'a> {
                 }
                 op = match op {
                     Op::Pull { dst, src, .. } => Op::Pull { dst, src, cut: None },
-                    Op::Update { row, .. } => Op::Update { peer: *owner.get(&(row % n_rows)).unwrap_or(&0), row },
+                    Op::Update { row, .. } | Op::UpdateThroughParent { row, .. } => Op::Update { peer: *owner.get(&(row % n_rows)).unwrap_or(&0), row },
                     Op::DeleteNode { row, .. } => Op::DeleteNode { peer: *owner.get(&(row % n_rows)).unwrap_or(&0), row },
                     Op::SetPet { row, pet, .. } => Op::SetPet { peer: person_owner(&sc, &owner, row), row, pet },
                     Op::AddParent { row, parent, .. } => Op::AddParent { peer: person_owner(&sc, &owner, row), row, parent },
@@ -188,7 +200,7 @@ fn run_case<'a>(ctx: &'a Ctx, case: u64, acc: &'a mut Acc) -> CaseFut<'a> {
             } else {
                 op = match op {
                     Op::CreateNested { peer } => Op::Create { peer, entity: 0 },
-                    Op::SetPet { peer, row, .. } | Op::AddParent { peer, row, .. } | Op::DeleteRef { peer, row, .. } | Op::ClearPet { peer, row } | Op::ClearParents { peer, row } => Op::Update { peer, row },
+                    Op::SetPet { peer, row, .. } | Op::AddParent { peer, row, .. } | Op::DeleteRef { peer, row, .. } | Op::ClearPet { peer, row } | Op::ClearParents { peer, row } | Op::UpdateThroughParent { peer, row } => Op::Update { peer, row },
                     o => o,
                 };
             }
